@@ -14,7 +14,7 @@ LEVEL_TEXT = (
     "(the structural half of the prolongation clause)."
 )
 LEVEL_NOTE = "Not decided: the P1/RWG dof-map loops on arbitrary meshes (program verification), prolongation equality up to quadrature error (numerical)."
-EXPLANATION = "rules ASM-REGULAR (scatter, 6 assemblers), SING-SCATTER, SING-SUPPORT, SING-LAYOUT, SPARSE-ROLES/SCATTER, SPACE-MAPS, LAUNCH-ROLES, REFINE-CHILDREN, REFINE-DATA, IDX-ELEM-BY-POSITION, DOF-BY-ENTITY"
+EXPLANATION = "rules ASM-REGULAR (scatter, 6 assemblers), SING-SCATTER, SING-SUPPORT, SING-LAYOUT, SPARSE-ROLES/SCATTER, SPACE-MAPS, LAUNCH-ROLES, REFINE-CHILDREN, REFINE-DATA, IDX-ELEM-BY-POSITION, DOF-BY-ENTITY, ADJ-9"
 ASSUMPTIONS = ["local2global / local_multipliers tables describe T (C09)", "np.add.at and COO assembly accumulate duplicates"]
 
 
@@ -35,3 +35,4 @@ def run(ctx):
 
     gridfun.repo_lints(ctx)
     spaces.dof_by_entity(ctx)
+    rules.elements_adjacent_complete(ctx)  # the predicate that routes a pair to the singular rule (ADJ-9)
